@@ -16,7 +16,7 @@ RULE = ("histories of 1-3 aggregator sessions on one output file under the contr
         "uninterrupted run; plus pairs of aggregators on sibling output files (plain and dotted names) in one directory; "
         "non-trivial = a crash strictly between two file operations, or two aggregators in one directory")
 
-SUBJECTS = ["s1", "s2", "s 3"]
+SUBJECTS = ["s1", "s2", "s 3", "s-4"]
 
 
 def ctor_ops(label, st):
@@ -121,7 +121,8 @@ def _run_history(ctx, init, sessions, src):
                         ops.append(["thread", i])
                     steps += 1
                     record()
-            if crashed or budget is not None:
+            if crashed or budget is not None or si < len(sessions) - 1:
+                # a non-final session that ran to completion ends like a process exit without cleanup
                 before = H.observe()
                 if any(j not in H.C.done for j in list(H.C.gates)):
                     crash_between = True
@@ -215,7 +216,7 @@ def siblings(ctx, n1, n2, src):
 def rand_history(ctx, tag, i):
     rng = ctx.rng
     init = rng.choice(["absent", "empty", "header", "rows", "rows+buffer"])
-    subs = SUBJECTS[:rng.randint(1, 3)]
+    subs = sorted(rng.sample(SUBJECTS, rng.randint(1, 3)), key=SUBJECTS.index)
     n_sess = rng.choice([1, 2, 2, 3])
     sessions = []
     for s in range(n_sess):
@@ -233,10 +234,26 @@ def run(ctx):
         for cp in range(0, 20):
             run_history(ctx, init, [{"subjects": ["s2"], "schedule": [0] * 12, "crash_after": cp},
                                     {"subjects": ["s2"], "schedule": [], "crash_after": None}], f"allcrash.{init}.{cp}")
+    # finished subjects whose rows legitimately contain empty cells (empty prediction / empty reference), then a
+    # killed session, then a restart that resubmits everything
+    for cp in (11, 14, 16, 19):
+        run_history(ctx, "absent", [{"subjects": ["s 3", "s-4", "s2"], "schedule": [0] * 10 + [1] * 10, "crash_after": None},
+                                    {"subjects": ["s 3", "s-4", "s2"], "schedule": [2] * 6, "crash_after": cp},
+                                    {"subjects": ["s 3", "s-4", "s2"], "schedule": [], "crash_after": None}], f"emptycells.{cp}")
     ctx.extra["exhaustive_subspace"] = "every crash point (0..19 actions) of a one-subject session x 5 initial file states, followed by a complete restart"
     for i in range(ctx.scale(120, 2500)):
         rand_history(ctx, "rand", i)
-    for n1, n2 in (("x.tsv", "y.tsv"), ("run.fold1.tsv", "run.fold2.tsv"), ("a.b.c.tsv", "a.b.d.tsv")):
+    pairs = [("x.tsv", "y.tsv"), ("run.fold1.tsv", "run.fold2.tsv"), ("a.b.c.tsv", "a.b.d.tsv"), ("result.tsv", "results.tsv"),
+             ("test.tsv", "tests.tsv"), ("fold_s.tsv", "fold_t.tsv"), ("v.tsv", "vv.tsv")]
+    rng = ctx.rng
+    for _ in range(ctx.scale(6, 60)):
+        # random sibling names over an alphabet biased to the characters of ".tsv"
+        base = "".join(rng.choice("abtsv._12") for _ in range(rng.randint(1, 6))).strip(".") or "a"
+        a = base + rng.choice(["", "s", "t", "v", ".t", "_1", ".s"])
+        b = base + rng.choice(["x", "ts", "vs", ".v", "_2", "ss"])
+        if a != b and not a.endswith(".") and not b.endswith("."):
+            pairs.append((a + ".tsv", b + ".tsv"))
+    for n1, n2 in pairs:
         siblings(ctx, n1, n2, f"sib.{n1}.{n2}")
 
 
